@@ -168,12 +168,14 @@ def families(tier, seed):
     T = ['3.7', '3.8', '3.14']
     if tier == 'quick':
         fams = [sigma.fam(a, 3, V) for a in ('chars', 'ws', 'strs', 'indent', 'fws', 'blocks')]
+        fams.append(sigma.fam('contstr', 4, V))
         fams += [sigma.fam(a, 4, T, name='%s=4' % a, n_lo=4) for a in ('chars', 'ws', 'strs', 'indent', 'fws')]
         fams.append(sigma.fam('chars', 5, ['3.8'], name='chars=5/stream', n_lo=5, leaf=False, ctxkey='s'))
         k = ('ws', 'strs', 'indent', 'fws')[seed % 4]
         fams.append(sigma.seed_slice(k, 5, ['3.7', '3.8'], seed, 32))
     else:
         fams = [sigma.fam(a, 4, V) for a in ('chars', 'ws', 'strs', 'indent', 'fws', 'blocks')]
+        fams.append(sigma.fam('contstr', 5, V))
         fams += [sigma.fam(a, 5, ['3.7', '3.8'], name='%s=5' % a, n_lo=5) for a in ('chars', 'ws', 'strs', 'indent', 'fws')]
         fams.append(sigma.fam('chars', 6, ['3.8'], name='chars=6/stream', n_lo=6, leaf=False, ctxkey='s'))
     return fams
